@@ -25,8 +25,11 @@ def gen_program(chk, i):
     types = {}
     for _ in range(rng.randint(1, 4)):
         t = rng.randint(0, 99)
-        types[t] = {"kind": rng.choice(["single", "stack"]), "title": "title of %d" % t,
-                    "labels": {v: "label %d/%d" % (t, v) for v in rng.sample(range(1, 40), rng.randint(0, 5))}}
+        # titles and labels are free text: quotes, backslashes, braces, non-ASCII
+        tfmt = ["title of %d", 'say "hi" %d', "Norm \\nabla u %d", "{%d}: [x], 100%%", "caf\u00e9 %d"][t % 5]
+        lfmt = ["label %d/%d", '"%d"/%d', "a\\b %d/%d", "label %d/%d", "\u00b5s %d/%d"][t % 5]
+        types[t] = {"kind": rng.choice(["single", "stack"]), "title": tfmt % t,
+                    "labels": {v: lfmt % (t, v) for v in rng.sample(range(1, 40), rng.randint(0, 5))}}
     procs = []
     tid = 700
     ncpu = 0
